@@ -227,7 +227,20 @@ func VerifC06_Lifecycle() {
 			return nil
 		}
 	}
-	m := Register("m", cb(0), cb(1), cb(2))
+	// the module with the panicking routine may depend on a healthy module (which
+	// is prepared and started before it and stopped after it) and have a healthy
+	// dependent (the other way round)
+	healthyBase, healthyTop := rt.Bool("healthy-dependency"), rt.Bool("healthy-dependent")
+	ok := func() error { return nil }
+	var deps []string
+	if healthyBase {
+		Register("base", ok, ok, ok)
+		deps = []string{"base"}
+	}
+	m := Register("m", cb(0), cb(1), cb(2), deps...)
+	if healthyTop {
+		Register("top", ok, ok, ok, "m")
+	}
 	_ = initDependencies()
 	err := prepareModules()
 	if phase == 0 {
